@@ -199,6 +199,40 @@ def build(spec):
     return built[spec["root"]], built
 
 
+NP_UN = {"neg": np.negative, "abs": np.abs, "exp": np.exp, "tanh": np.tanh, "log1p": np.log1p,
+         "sigmoid": lambda x: 1.0 / (1.0 + np.exp(-x))}
+NP_BIN = {"add": np.add, "sub": np.subtract, "mul": np.multiply, "max": np.maximum, "min": np.minimum,
+          "truediv": np.true_divide}
+
+
+def spec_eval(spec, npd):
+    """Independent numpy evaluation of every node of the spec (used to keep the clean stream inside the ops'
+    domains: division by zero is evaluated differently by eager funsor (clamped reciprocal) and by numpy)."""
+    vals = []
+    for nd in spec["nodes"]:
+        k = nd[0]
+        if k == "var":
+            v = np.asarray(npd.get(nd[1], np.nan), dtype=np.float64)
+        elif k == "num":
+            v = np.asarray(nd[1], dtype=np.float64)
+        elif k == "tensor":
+            v = np.asarray(nd[1], dtype=np.float64)
+        elif k == "btensor":
+            v = np.asarray(nd[1], dtype=np.float64)[int(npd.get(nd[2], 0))]
+        elif k == "un":
+            v = NP_UN[nd[1]](vals[nd[2]])
+        elif k == "bin":
+            v = NP_BIN[nd[1]](vals[nd[2]], vals[nd[3]])
+        elif k == "contr":
+            v = vals[nd[2][0]]
+            for i in nd[2][1:]:
+                v = NP_BIN[nd[1]](v, vals[i])
+        else:
+            v = tuple(vals[i] for i in nd[1])
+        vals.append(v)
+    return vals
+
+
 def extract_data(x):
     if isinstance(x, (Number, Tensor)):
         if isinstance(x, Tensor) and x.inputs:
@@ -481,6 +515,11 @@ def check_case(ctx, spec, data, use_driver=True, stream="clean"):
     tol = 1e-12 if has_trans else 0.0
     batched = rk("btensor")
     with np.errstate(all="ignore"):
+        oracle = spec_eval(spec, npd_all)
+        for i in reach:
+            if not isinstance(oracle[i], tuple) and not (np.all(np.isfinite(oracle[i])) and np.all(np.abs(oracle[i]) < 1e100)):
+                ctx.count("skip:outside-domain(non-finite intermediate)")
+                return False
         # ---- compile -------------------------------------------------------------------------
         try:
             program = compile_funsor(expr)
@@ -497,6 +536,11 @@ def check_case(ctx, spec, data, use_driver=True, stream="clean"):
                 # ground sub-terms built under reflect/lazy stay deferred: evaluate them eagerly
                 expected = extract_data(reinterpret(r))
                 ctx.count("spec:needed-reinterpret")
+            if not same_value(expected, oracle[spec["root"]], 1e-9):
+                # funsor's own eager evaluation disagrees with plain numpy on the spec: not C18's business
+                # (C01 checks eager evaluation); keep it out of the comparison but make it visible
+                ctx.count("skip:eager-value-ne-numpy-oracle")
+                return False
         except Decline:
             ctx.count("skip:lazy-result")
             return False
